@@ -124,9 +124,9 @@ Fixpoint run_batches (fx : fixes) (s : ispec) (lim : limits) (h : history) (maxb
 Inductive case :=
 (* indexing had caught up with transaction n (WaitForIndexingUpto n returned) *)
 | CSpec (c : cfg) (now : N) (h : history) (n : N) (qs : list (query * obs))
-(* same, the indexer having been driven through a known bulk schedule; `stalled`: indexing never
+(* same, the indexer (model all_fixed = the code of /repo) having been driven through a known bulk schedule; `stalled`: indexing never
    reached the last transaction of the last batch *)
-| CModel (fx : fixes) (snapfix : bool) (c : cfg) (lim : limits) (now : N) (h : history)
+| CModel (c : cfg) (lim : limits) (now : N) (h : history)
          (maxbulk : nat) (batches : list nat) (stalled : bool) (qs : list (query * obs))
 (* valueRefFrom(tx, hc, bytes) *)
 | CVRef (tx hc : N) (b : bytes) (out : res oref)
@@ -139,13 +139,13 @@ Definition case_ok (c : case) : bool :=
       wf_history h &&
       (let ix := index_of_history (spec_of c) (firstn (N.to_nat n) h) in
        forallb (fun qo => obs_eqb (spec_answer now ix (fst qo)) (snd qo)) qs)
-  | CModel fx snapfix c lim now h maxbulk batches stalled qs =>
+  | CModel c lim now h maxbulk batches stalled qs =>
       wf_history h &&
-      match run_batches fx (spec_of c) lim h maxbulk batches istate_init with
+      match run_batches all_fixed (spec_of c) lim h maxbulk batches istate_init with
       | Ok st =>
           if tb_ts (is_tb st) =? N.of_nat (last batches 0%nat)
           then negb stalled &&
-               forallb (fun qo => obs_eqb (model_answer snapfix now (is_tb st) (fst qo)) (snd qo)) qs
+               forallb (fun qo => obs_eqb (model_answer true now (is_tb st) (fst qo)) (snd qo)) qs
           else stalled
       | _ => stalled
       end
